@@ -23,7 +23,7 @@ inductive St where
   | qCR (recs : List Record) (fs : Record) (acc : Field)        -- inside quotes, pending CR
   | qq (recs : List Record) (fs : Record) (acc : Field)         -- saw a quote inside quotes
   | qqCR (recs : List Record) (fs : Record) (acc : Field)       -- after closing quote, pending CR
-  | err
+  | err (recs : List Record)                             -- a syntax error after these complete records
 deriving Repr, DecidableEq
 
 open St
@@ -41,7 +41,7 @@ def step : St → B → St
   | recStartCR recs, c =>
       if c = lf then recStart recs            -- "\r\n" blank line
       else if c = cr then unqCR recs [] [cr]
-      else if c = quote then err               -- bare quote in unquoted field that started with CR
+      else if c = quote then err recs          -- bare quote in unquoted field that started with CR
       else if c = comma then fieldStart recs [[cr]]
       else unq recs [] [c, cr]
   | fieldStart recs fs, c =>
@@ -53,13 +53,13 @@ def step : St → B → St
   | unq recs fs acc, c =>
       if c = lf then endRec recs fs acc
       else if c = cr then unqCR recs fs acc
-      else if c = quote then err
+      else if c = quote then err recs
       else if c = comma then fieldStart recs (fs ++ [acc.reverse])
       else unq recs fs (c :: acc)
   | unqCR recs fs acc, c =>
       if c = lf then endRec recs fs acc
       else if c = cr then unqCR recs fs (cr :: acc)
-      else if c = quote then err
+      else if c = quote then err recs
       else if c = comma then fieldStart recs (fs ++ [(cr :: acc).reverse])
       else unq recs fs (c :: cr :: acc)
   | q recs fs acc, c =>
@@ -76,25 +76,32 @@ def step : St → B → St
       else if c = comma then fieldStart recs (fs ++ [acc.reverse])
       else if c = lf then endRec recs fs acc
       else if c = cr then qqCR recs fs acc
-      else err
+      else err recs
   | qqCR recs fs acc, c =>
-      if c = lf then endRec recs fs acc else err
-  | err, _ => err
+      if c = lf then endRec recs fs acc else err recs
+  | err recs, _ => err recs
 
-def finish : St → Option (List Record)
-  | recStart recs => some recs
-  | recStartCR recs => some recs               -- trailing CR at EOF is dropped, leaving an empty line
-  | fieldStart recs fs => some (recs ++ [fs ++ [[]]])
-  | unq recs fs acc => some (recs ++ [fs ++ [acc.reverse]])
-  | unqCR recs fs acc => some (recs ++ [fs ++ [acc.reverse]])
-  | q _ _ _ => none
-  | qCR _ _ _ => none
-  | qq recs fs acc => some (recs ++ [fs ++ [acc.reverse]])
-  | qqCR recs fs acc => some (recs ++ [fs ++ [acc.reverse]])
-  | err => none
+/-- the complete records, and whether the reader reported a syntax error after them -/
+def finish : St → List Record × Bool
+  | recStart recs => (recs, false)
+  | recStartCR recs => (recs, false)             -- trailing CR at EOF is dropped, leaving an empty line
+  | fieldStart recs fs => (recs ++ [fs ++ [[]]], false)
+  | unq recs fs acc => (recs ++ [fs ++ [acc.reverse]], false)
+  | unqCR recs fs acc => (recs ++ [fs ++ [acc.reverse]], false)
+  | q recs _ _ => (recs, true)
+  | qCR recs _ _ => (recs, true)
+  | qq recs fs acc => (recs ++ [fs ++ [acc.reverse]], false)
+  | qqCR recs fs acc => (recs ++ [fs ++ [acc.reverse]], false)
+  | err recs => (recs, true)
 
 def run (st : St) (s : List B) : St := s.foldl step st
-def read (s : List B) : Option (List Record) := finish (run (recStart []) s)
+/-- all records up to the first syntax error, and whether there was one -/
+def readAll (s : List B) : List Record × Bool := finish (run (recStart []) s)
+
+/-- the whole input as records; `none` on any syntax error -/
+def read (s : List B) : Option (List Record) :=
+  let r := readAll s
+  if r.2 then none else some r.1
 
 @[simp] theorem run_nil (st) : run st [] = st := rfl
 @[simp] theorem run_cons (st c s) : run st (c :: s) = run (step st c) s := rfl
@@ -105,18 +112,21 @@ def stripBom : List B → List B
   | 0xEF :: 0xBB :: 0xBF :: r => r
   | s => s
 
-/-- a parsed file: header and data records, every record as wide as the header -/
+/-- a file as `csv.New` + `NextRow` see it: the header, the data records read before the reader
+    stops, and whether it stopped because of an error (bad quoting, or a record whose width differs
+    from the header's) rather than at the end of the input -/
 structure File where
   header : Record
   rows : List Record
+  bodyError : Bool
 deriving DecidableEq, Repr
 
-/-- `csv.New` followed by reading every row: `none` when the reader reports an error anywhere
-    (bad quoting, a record of another width) or the file has no records at all -/
+/-- `none`: `csv.New` itself fails (no record at all, or a syntax error in the first record) -/
 def readFile (bytes : List B) : Option File :=
-  match read (stripBom bytes) with
-  | none => none
-  | some [] => none
-  | some (h :: rows) => if rows.all (fun r => r.length == h.length) then some ⟨h, rows⟩ else none
+  match readAll (stripBom bytes) with
+  | ([], _) => none
+  | (h :: rest, syntaxErr) =>
+    let good := rest.takeWhile (fun r => r.length == h.length)
+    some ⟨h, good, syntaxErr || good.length < rest.length⟩
 
 end Gtfs.Csv
